@@ -110,7 +110,10 @@ def output(Nref=None, deme_mapping=None, generation_time=None):
         if younger.deme_ids is None:
             if isinstance(younger, Split):
                 era += 1
-                younger.deme_ids = ['d{0}_{1}'.format(era, ii+1) for ii in range(len(older.deme_ids)+1)]
+                # Continuing demes keep their names (renaming them at the moment the new
+                # deme appears would turn an admixture into a merger of demes that
+                # end there); only the new deme gets a new name.
+                younger.deme_ids = list(older.deme_ids) + ['d{0}_{1}'.format(era, len(older.deme_ids)+1)]
             elif isinstance(younger, Remove):
                 younger.deme_ids = list(older.deme_ids)
                 del younger.deme_ids[younger.removed-1]
